@@ -503,7 +503,21 @@ def o_pp(P, Q):
     return U
 
 
-V("pp", ["P", "P"], o_pp, fix=lambda rng, a: [a[0] * rng.choice([1, 2, 6, 12, 2**70]), a[1] if rng.chance(1, 2) else rng.choice([2, 6, 30, 2**64])])
+def fix_pp(rng, a):
+    P, Q = a
+    if rng.chance(1, 2):
+        Q = rng.choice([0, 1, -1, 2, -2, 6, 30, -30, 2**64, 2 * 3 * 5 * 7 * 11 * 13])
+    r = rng.below(4)
+    if r == 0:
+        P = P * rng.choice([1, 2, 6, 12, 2**70])
+    elif r == 1 and Q:
+        P = Q**rng.range(1, 5) * rng.choice([1, -1, 7, 2**61 - 1])     # a power of Q times something coprime or not
+    elif r == 2:
+        P = rng.choice([1, -1, 2, -4, 12, -360, 2**64, -2**65])
+    return [P if P else 1, Q]
+
+
+V("pp", ["I", "I"], o_pp, fix=fix_pp)
 
 
 def o_perfect(a):
